@@ -97,6 +97,7 @@ func (cq *commitQueue) acquireItem() bool {
 			// in queueLen. Testing queueLen first let the worker exit between a late
 			// writer's push and its inflight decrement, stranding that request.
 			if atomic.LoadInt64(&cq.inflight) == 0 {
+				utils.VerifYield("commitq.drain.betweenLoads")
 				if atomic.LoadInt64(&cq.queueLen) == 0 {
 					return false
 				}
